@@ -19,7 +19,7 @@ ORACLE_KEYS = ("C01",)
 
 
 def streams(rng, tier):
-    n = 250 if tier == "quick" else 3000
+    n = 500 if tier == "quick" else 3000
     return [("histories", [{"prog": H.gen_program(rng, rng.randint(8, 40), MIX)} for _ in range(n)])]
 
 
